@@ -915,10 +915,14 @@ class CrystalMap:
                 sliced_array = sliced_array.astype(np.float64)
             sliced_array[not_in_data] = fill_value
 
-        # Round values
-        if decimals is not None:
+        # Round values (there is nothing to round in a boolean array)
+        if decimals is not None and sliced_array.dtype != np.bool_:
+            if sliced_array.dtype == np.float16:
+                # Rounding scales by 10**decimals, which overflows in
+                # half precision
+                sliced_array = sliced_array.astype(np.float32)
             output_array = np.round(sliced_array, decimals=decimals)
-        else:  # np.issubdtype(array.dtype, np.bool_):
+        else:
             output_array = sliced_array
 
         return output_array
